@@ -251,9 +251,20 @@ func (c *Ctx) writerRun(name string, cases []*WCase, withStd bool) (int, error) 
 			cases = append(cases, w)
 		}
 	}
-	for _, cs := range cases {
+	for ci, cs := range cases {
 		cs.Family = "writer"
 		cs.Set.Impl = "fastgo"
+		if cs.FailAt == 0 && ci%2 == 1 {
+			// every second fault-free case resets onto the SAME destination object (the next member
+			// or stream is appended to the same file) instead of a new one
+			ops := append([]Op{}, cs.Ops...)
+			for i := range ops {
+				if ops[i].Op == "R" {
+					ops[i].Op = "S"
+				}
+			}
+			cs.Ops = ops
+		}
 		if c.mech && cs.Set.Kind == "flate" && cs.Set.Dict == nil && !cs.CountOnly && cs.Soak == 0 &&
 			(cs.Set.Level == 1 || cs.Set.Level == 2 || cs.Set.Level == -1 || (cs.Set.Window == 4096 && cs.Set.Level > 0)) {
 			cs.Mech = true
